@@ -595,6 +595,17 @@ class CallMixin:
         ls = [a.items if isinstance(a, SList) else a for a in args]
         return SList([tuple(x) for x in zip(*ls)])
 
+    def b_Margins(self, args, kw, st, n):
+        """pandora.margins.Margins(left, up, right, down): a record (its __post_init__ refuses negative values)"""
+        vals = list(args) + [kw[k] for k in ("left", "up", "right", "down")[len(args):] if k in kw]
+        if not self.spec:
+            for v in vals:
+                g = simp_bool(zi(to_int(v)) >= 0)
+                if g is not True:
+                    self.emit(st, "pre@call", "Margins.L%d" % n.lineno, g, n, "Margins values are non-negative (else ValueError)")
+                    st.assume(g)
+        return ("Margins",) + tuple(vals)
+
     def b_Window(self, args, kw, st, n):
         """rasterio.windows.Window(col_off, row_off, width, height): a plain record"""
         return ("Window",) + tuple(args)
